@@ -6,7 +6,7 @@ DEFAULT_ONLY = False
 
 
 def cases(tier, rng):
-    nt, nh = (150, 200) if tier == "quick" else (2000, 3000)
+    nt, nh = (150, 200) if tier == "quick" else (12000, 18000)
     over = {}
     if PROP == "C15":
         yield from c15_switch_cases(tier, rng)
@@ -32,7 +32,7 @@ def run(tier, seed):
     hc.run_corpus(lambda kind: evprops.oracle_c12)
     for text in rc_extra:
         hc.v.violation("oracle: C14 " + text, {"api": "DefaultFaultHandlerBase.set_handler"})
-    for case in cases(tier, hc.rng):
+    for case in hcommon.share(cases(tier, hc.rng)):
         case.run()
         for kind, ops, obs in case.sides:
             hc.add_trace(kind, ops, obs, label=type(case).__name__, oracle=evprops.oracle_c12, describe=case.describe)
